@@ -55,30 +55,28 @@ func (w *World) applyParam(st *Step) {
 	if !w.inBlock {
 		return
 	}
+	var act func(n *Node)
 	switch st.S["module"] {
 	case "storage":
-		for _, n := range w.nodes {
-			ctx := w.ctxOf(n)
-			p := n.app.StorageKeeper.GetParams(ctx)
-			np := p
-			if !overlayJSON(&np, st.N) || np.Validate() != nil || !pairsValid(np.ParamSetPairs()) {
-				return
-			}
-			n.app.StorageKeeper.SetParams(ctx, np)
+		np := w.node().app.StorageKeeper.GetParams(w.Ctx())
+		if !overlayJSON(&np, st.N) || np.Validate() != nil || !pairsValid(np.ParamSetPairs()) {
+			return
 		}
-		w.Fault("param_change")
+		act = func(n *Node) { n.app.StorageKeeper.SetParams(w.ctxOf(n), np) }
 	case "mint":
-		for _, n := range w.nodes {
-			ctx := w.ctxOf(n)
-			p := n.app.MintKeeper.GetParams(ctx)
-			np := p
-			if !overlayJSON(&np, st.N) || np.Validate() != nil || !pairsValid(np.ParamSetPairs()) {
-				return
-			}
-			n.app.MintKeeper.SetParams(ctx, np)
+		np := w.node().app.MintKeeper.GetParams(w.Ctx())
+		if !overlayJSON(&np, st.N) || np.Validate() != nil || !pairsValid(np.ParamSetPairs()) {
+			return
 		}
-		w.Fault("param_change")
+		act = func(n *Node) { n.app.MintKeeper.SetParams(w.ctxOf(n), np) }
+	default:
+		return
 	}
+	for _, n := range w.nodes {
+		act(n)
+	}
+	w.journal = append(w.journal, act)
+	w.Fault("param_change")
 }
 
 // overlayJSON sets the JSON-named integer fields of v given in n.
